@@ -80,7 +80,21 @@ def histories(tier, seed):
     ops = [('add_node', i) for i in range(3)] + [('remove_node', i) for i in range(3)] \
         + [('add_dependency', i, j) for i in range(3) for j in range(3) if i != j] \
         + [('remove_dependency', i, j) for i in range(3) for j in range(3) if i != j] + [('copy',), ('invert',), ('merge_self_copy',)] \
-        + [('add_dependency', 0, 0), ('remove_dependency', 0, 0)]          # a node may depend on itself in the mathematical graph
+        + [('add_dependency', 0, 0), ('remove_dependency', 0, 0)] \
+        + [('transitive_reduction',), ('transitive_closure',)]              # in place, on acyclic graphs (skipped when the graph has a cycle)
+    # (a node may depend on itself in the mathematical graph)
+
+    def _reach(edges_, a):
+        seen, todo = [], [b for (x, b) in edges_ if x is a]
+        while todo:
+            y = todo.pop()
+            if not any(y is z for z in seen):
+                seen.append(y)
+                todo.extend(b for (x, b) in edges_ if x is y)
+        return seen
+
+    def _acyclic(nodes_, edges_):
+        return not any(any(y is a for y in _reach(edges_, a)) for a in nodes_)
     L = 3 if tier == 'quick' else 4
     seqs = list(itertools.product(ops, repeat=L))
     rng = random.Random(seed)
@@ -128,6 +142,14 @@ def histories(tier, seed):
                     if p:
                         bad = p[0]
                     snapshots.append((inv, list(nodes), {(b, a) for (a, b) in edges}))
+                elif op[0] in ('transitive_reduction', 'transitive_closure'):
+                    if _acyclic(nodes, edges):
+                        getattr(g, op[0])()
+                        if op[0] == 'transitive_closure':
+                            edges = {(a, b) for a in nodes for b in _reach(edges, a)}
+                        else:
+                            # the unique reduction of a DAG: an edge stays unless its target is reachable through another direct successor
+                            edges = {(a, b) for (a, b) in edges if not any(any(y is b for y in _reach(edges, c)) for (x, c) in edges if x is a and c is not b)}
                 elif op[0] == 'merge_self_copy':
                     h = g + g.copy()
                     p = check_against(h, nodes, edges, f'step {k} g + g.copy()')
@@ -153,10 +175,47 @@ def histories(tier, seed):
             fails.append({'input': {'history': [list(o) for o in seq]}, 'observed': bad, 'expected': 'the plain node/edge-set model'})
             if len(fails) >= 6:
                 break
+    # nodes that compare EQUAL without being the same object (two empty nested graphs -- DepGraph equality is isomorphism --, user objects with a value-based __eq__):
+    # the graph tells them apart (nodes are identified by identity), also through merges, sums and copies
+    class Twin:
+        def __init__(self, label):
+            self.label = label
+
+        def __eq__(self, other):
+            return isinstance(other, Twin)
+
+        def __hash__(self):
+            return 7
+
+        def __repr__(self):
+            return f'Twin({self.label})'
+    for mk in (lambda k: Twin(k), lambda k: DepGraph()):
+        for shape in ('same positions', 'crossed', 'one more node'):
+            n += 1
+            a1, b1, a2, b2, c2 = (mk(k) for k in range(5))
+            g1 = DepGraph().add_dependency(a1, on=b1)
+            g2 = DepGraph().add_dependency(a2, on=b2) if shape == 'same positions' else \
+                (DepGraph().add_dependency(b2, on=a2) if shape == 'crossed' else DepGraph().add_dependency(a2, on=b2).add_dependency(a2, on=c2))
+            e1 = [(a1, b1)]                 # lists of pairs: nested graphs are not hashable
+            e2 = [(a2, b2)] if shape == 'same positions' else ([(b2, a2)] if shape == 'crossed' else [(a2, b2), (a2, c2)])
+            n2 = [a2, b2] + ([c2] if shape == 'one more node' else [])
+            bad = None
+            try:
+                summed = g1 + g2
+                p1 = check_against(summed, [a1, b1] + n2, e1 + e2, 'g1 + g2 over look-alike nodes')
+                p2 = check_against(g1, [a1, b1], e1, 'g1 after g1 + g2')
+                merged = g1.copy().merge(g2)
+                p3 = check_against(merged, [a1, b1] + n2, e1 + e2, 'g1.copy().merge(g2) over look-alike nodes')
+                bad = (p1 or p2 or p3 or [None])[0]
+            except Exception as e:      # noqa
+                bad = f'raised {e!r}'
+            if bad:
+                fails.append({'input': {'look_alike_nodes': 'user objects with a value-based __eq__' if mk(0).__class__.__name__ == 'Twin' else 'distinct empty nested graphs', 'second_graph': shape},
+                              'observed': bad, 'expected': 'the plain node/edge-set model (nodes told apart by identity)'})
     return {'name': 'depgraph-edit-histories', 'evaluations': n, 'distinct': n, 'failures': fails, 'exhaustive': False,
-            'bound': f'all histories of length {L} over 3 nodes and 25 operations, self-dependency included (exhaustive) + {len(extra)} seeded histories of length 5-7; '
+            'bound': f'all histories of length {L} over 3 nodes and 27 operations, self-dependency and in-place transitive reduction / closure (on acyclic graphs) included (exhaustive) + {len(extra)} seeded histories of length 5-7; '
                      'after every step nodes / dependencies / dependees / iteration / membership / len are compared with a plain model; '
-                     'copies, inverses and merges are re-checked after the whole history',
+                     'copies, inverses and merges are re-checked after the whole history; sums and merges of graphs whose nodes compare equal without being identical (6 layouts)',
             'samples': [[list(o) for o in seqs[len(seqs) // 2]]]}
 
 
